@@ -138,12 +138,18 @@ def random_history(rnd, nsessions):
             "2024/02"]
     hist = []
     for _ in range(nsessions):
-        kind = rnd.choice(["root", "root", "dir", "dir", "dir", "multi"])
+        kind = rnd.choice(["root", "root", "dir", "dir", "dir", "multi",
+                           "deferred"])
         splits = rnd.sample(["train", "test", "holdout"], rnd.randint(1, 2))
         s = {"kind": kind, "reopen": rnd.random() < 0.5}
         if kind == "dir":
             s["dir"] = rnd.choice(dirs)
-        if kind == "multi":
+        if kind == "deferred":
+            nw = rnd.randint(1, 3)
+            s["writers"] = [{"dir": rnd.choice(dirs), "counts": {
+                sp: rnd.randint(0, 3) for sp in splits}} for _ in range(nw)]
+            s["order"] = rnd.sample(range(nw), nw)
+        elif kind == "multi":
             s["writers"] = [
                 {sp: rnd.randint(0, 4) for sp in rnd.sample(
                     splits, rnd.randint(1, len(splits)))}
@@ -181,6 +187,25 @@ def run_history(root, hist, fmt="fb", eps=2, real_processes=False):
                 if res != [sum(len(v) for v in g.values()) for g in groups]:
                     return [f"multi-writer results {res} not in argument "
                             f"order"], k
+            elif s["kind"] == "deferred":
+                # fillers that do not update the dataset themselves; their
+                # infos are handed to write_config later, one call per filler
+                # in the given order (an info may be stale by then: a later
+                # filler extended the same list file)
+                from sedpack.io.dataset_filler import DatasetFiller
+                infos = []
+                for w in s["writers"]:
+                    f = DatasetFiller(d, relative_path_from_split=Path(w["dir"]),
+                                      auto_update_dataset=False)
+                    with f as filler:
+                        for sp, n in w["counts"].items():
+                            for i in fresh(n):
+                                expected[sp].append(i)
+                                filler.write_example(values=C.example(i),
+                                                     split=sp)
+                    infos.append(f.get_updated_infos())
+                for j in s["order"]:
+                    d.write_config(updated_infos=infos[j])
             else:
                 from sedpack.io.dataset_filler import DatasetFiller
                 f = DatasetFiller(d, relative_path_from_split=Path(s["dir"])) \
@@ -224,6 +249,16 @@ FIXED_HISTORIES = [
     [{"kind": "multi", "writers": [{"train": 2}], "reopen": False},
      {"kind": "dir", "dir": "sub", "counts": {"train": 2}, "reopen": False},
      {"kind": "root", "counts": {"train": 3}, "reopen": True}],
+    # deferred updates: two fillers on the same directory, the older (by then
+    # stale) info is committed last; nested directories committed child first
+    [{"kind": "deferred", "reopen": False, "order": [1, 0], "writers": [
+        {"dir": "part", "counts": {"train": 2}},
+        {"dir": "part", "counts": {"train": 3}}]},
+     {"kind": "root", "counts": {"train": 1}, "reopen": True}],
+    [{"kind": "deferred", "reopen": False, "order": [1, 0, 2], "writers": [
+        {"dir": "a", "counts": {"train": 2, "test": 1}},
+        {"dir": "a/b", "counts": {"train": 3}},
+        {"dir": "a", "counts": {"train": 1}}]}],
 ]
 
 
